@@ -50,6 +50,14 @@ CHECKS = {
             'expected one-response-per-accepted-request sequence with the request ids.',
             'Fake transports (one entry per send call); Twisted reactor behaviour modelled; binary histories containing delimiter bytes excluded.',
             'DESIGN.md 4 C09'),
+    'C10': ('hypothesis unit-routing histories over 7 front-ends with setValues-counting slave contexts; oracle = one reference model per hosted unit + response check; exhaustive unit-id sweep',
+            'Generated hosted sets, addressed units, broadcast/ignore flags, front-ends, framings and short write/read histories; '
+            'after the history every hosted unit\'s four tables must equal its own reference model (so a write reached exactly '
+            'the addressed unit, or every unit exactly once for a broadcast, or nothing for an absent unit), setValues call counts '
+            'must match, and responses must be the model\'s (or silence / gateway exception for absent units). Thorough sweeps all '
+            '256 unit ids x hosted-set shapes x flags x front-ends.',
+            'Harness subclass of ModbusSlaveContext counts setValues; filter-dropped frames count as unanswered.',
+            'DESIGN.md 4 C10'),
     'C18': ('hypothesis operation histories on blocks / slave contexts / server contexts vs a dict model; exhaustive small-block sweeps',
             'Generated histories of validate/get/set/reset on sequential and sparse blocks with boundary-directed addresses, '
             'of function-code-addressed operations on a slave context (zero-mode on/off), and of set/get/del/contains on '
